@@ -123,10 +123,19 @@ func BaseConfig(engine, openapi string, globs []string) map[string]any {
 				"version": "1.0.0",
 			},
 			"baseUrl":             "https://api.example.com",
-			"securitySchemes":     []any{APIKeyScheme("s1"), APIKeyScheme("s2")},
+			"securitySchemes":     []any{APIKeyScheme("s1"), APIKeyScheme("s2"), OAuthScheme("s9")},
 			"specGeneratorConfig": map[string]any{"outputPath": "./dist/openapi.json"},
 		},
 	}
+}
+
+// OAuthScheme is an OAuth2 scheme with two flows whose scope sets differ (no scenario route uses it; it is there so
+// that every document carries a scheme with structure worth comparing).
+func OAuthScheme(name string) map[string]any {
+	return map[string]any{"description": "oauth " + name, "name": name, "type": "oauth2", "flows": map[string]any{
+		"implicit": map[string]any{"authorizationUrl": "https://id.example.com/auth", "scopes": map[string]any{"read": "read things"}},
+		"password": map[string]any{"tokenUrl": "https://id.example.com/token", "refreshUrl": "https://id.example.com/refresh", "scopes": map[string]any{"write": "write things", "admin": "everything"}},
+	}}
 }
 
 // AuthPackage is the user-side authorization package every generated routes file imports.
